@@ -9,6 +9,7 @@ import (
 	"fmt"
 	"reflect"
 	"sort"
+	"strings"
 
 	"zogverif/mc"
 	"zogverif/zh"
@@ -154,7 +155,19 @@ func init() {
 		},
 		Assumptions: []string{"toMap keys follow zog tag → schema key; leaves are presented with their native Go types", "schemas without Preprocess and without PostTransforms"},
 		Items: func(tier string) []Item {
-			return coreItems(tier, c13Scenario, func(a *Alpha) { a.Full = true }, []int{1}, 0)
+			items := coreItems(tier, c13Scenario, func(a *Alpha) { a.Full = true }, []int{1}, 0)
+			// tagged destinations: the record skeleton with uniform zog tags (plain, and with a comma in the value)
+			for _, cfg := range []int{1, 6} {
+				fields := recordFields(false)
+				sk := recordSkel(FEMap, uniformTags(fields, cfg), false)
+				ns := NamedSkel{Name: fmt.Sprintf("record/tags%d", cfg), S: sk}
+				units := skelUnits(sk, 2)
+				for _, fs := range focusSets(units, 1) {
+					a := &Alpha{Tier: tier, Mode: 1, Full: true}
+					items = append(items, Item{Name: fmt.Sprintf("%s/{%s}", ns.Name, strings.Join(fs, ",")), Run: c13Scenario(a, ns, fs, 2), MaxDevs: -1})
+				}
+			}
+			return items
 		},
 	})
 }
